@@ -47,8 +47,11 @@ def static_users(P, static):
             continue
         if f.kind == 'promoted':
             par = P.fns.get(f.key.split('::{promoted#')[0])
-            if par is not None and par not in users:
-                users.append(par)
+            # (a helper spliced into its callers hands its promoted constants to them)
+            owners = [par] if par is not None else [h for h in P.fn_list if h.kind != 'promoted' and any(q is f for q in h.promoted)]
+            for h in owners:
+                if h not in users:
+                    users.append(h)
             continue
         if f not in users:
             users.append(f)
